@@ -528,9 +528,12 @@ Section Pivot.
       apply sort_names_same. intro d. unfold melt_rowmajor. rewrite map_flat_map. split.
       - intro H. apply in_flat_map in H. destruct H as [r [Hr H]].
         rewrite (tag_row_dims r Hr) in H. exact H.
-      - intro H. destruct R as [|r0 R'] eqn:E; [congruence|].
-        apply in_flat_map. exists r0. split; [left; reflexivity|].
-        rewrite tag_row_dims; [exact H|]. rewrite E. left. reflexivity.
+      - intro H.
+        assert (Hex : exists r0, In r0 R).
+        { clear - HR1. destruct R as [|r0 ?]; [congruence|]. exists r0. left. reflexivity. }
+        destruct Hex as [r0 Hr0].
+        apply in_flat_map. exists r0. split; [exact Hr0|].
+        rewrite tag_row_dims; [exact H|exact Hr0].
     Qed.
 
     Lemma melt_rowmajor_keys : sort_keys (map l_key melt_rowmajor) = map fst R.
